@@ -31,6 +31,7 @@ import (
 	"os"
 	"os/exec"
 	"path/filepath"
+	"reflect"
 	"sort"
 	"strconv"
 	"strings"
@@ -50,6 +51,7 @@ type listPkg struct {
 
 type report struct {
 	GoStatements     []string       `json:"go_statements_rewritten,omitempty"`
+	ChanOps          []string       `json:"channel_operations_rewritten,omitempty"`
 	MapRangeSites    []string       `json:"map_range_sites"`
 	SelectorRewrites map[string]int `json:"selector_rewrites"`
 	SyncSwaps        []string       `json:"sync_import_swaps"`
@@ -296,6 +298,7 @@ func rewritePackage(fset *token.FileSet, imp types.Importer, p listPkg, src, rep
 		if !nosync {
 			fc.swapSync()
 			fc.rewriteGoStmts()
+			fc.rewriteChans()
 		}
 		if !fc.changed {
 			continue
@@ -622,6 +625,260 @@ func (fc *fileCtx) rewriteGoStmts() {
 			conv(x.Body)
 		case *ast.CommClause:
 			conv(x.Body)
+		}
+		return true
+	})
+}
+
+// rewriteChans turns the channel operations of the code under test (send, receive, close, range
+// over a channel, select) into calls of the vchan shim, so that they are scheduling and blocking
+// points of the controlled scheduler (and the real operations otherwise).
+func (fc *fileCtx) rewriteChans() {
+	isChan := func(e ast.Expr) bool {
+		tv, ok := fc.info.Types[e]
+		if !ok || tv.Type == nil {
+			return false
+		}
+		_, c := tv.Type.Underlying().(*types.Chan)
+		return c
+	}
+	shim := func(name string) ast.Expr {
+		fc.need["vchan"] = true
+		fc.changed = true
+		return &ast.SelectorExpr{X: ast.NewIdent("zzvchan"), Sel: ast.NewIdent(name)}
+	}
+	call := func(fun ast.Expr, args ...ast.Expr) *ast.CallExpr { return &ast.CallExpr{Fun: fun, Args: args} }
+	method := func(x ast.Expr, name string, args ...ast.Expr) *ast.CallExpr {
+		return call(&ast.SelectorExpr{X: x, Sel: ast.NewIdent(name)}, args...)
+	}
+	unparen := func(e ast.Expr) ast.Expr {
+		for {
+			p, ok := e.(*ast.ParenExpr)
+			if !ok {
+				return e
+			}
+			e = p.X
+		}
+	}
+	define := func(name string, rhs ast.Expr) ast.Stmt {
+		return &ast.AssignStmt{Lhs: []ast.Expr{ast.NewIdent(name)}, Tok: token.DEFINE, Rhs: []ast.Expr{rhs}}
+	}
+	use := func(name string) ast.Stmt {
+		return &ast.AssignStmt{Lhs: []ast.Expr{ast.NewIdent("_")}, Tok: token.ASSIGN, Rhs: []ast.Expr{ast.NewIdent(name)}}
+	}
+	labeled := map[ast.Stmt]bool{}
+	skip := map[ast.Node]bool{}
+	ast.Inspect(fc.file, func(n ast.Node) bool {
+		switch x := n.(type) {
+		case *ast.LabeledStmt:
+			labeled[x.Stmt] = true
+		case *ast.CommClause:
+			switch c := x.Comm.(type) {
+			case *ast.SendStmt:
+				skip[c] = true
+			case *ast.ExprStmt:
+				skip[unparen(c.X)] = true
+			case *ast.AssignStmt:
+				if len(c.Rhs) == 1 {
+					skip[unparen(c.Rhs[0])] = true
+				}
+			}
+		}
+		return true
+	})
+	note := func(n ast.Node, what string) {
+		fc.rep.ChanOps = append(fc.rep.ChanOps, fc.pos(n)+" "+what)
+	}
+	doExpr := func(parent ast.Node, e ast.Expr) ast.Expr {
+		if skip[e] {
+			return e
+		}
+		switch x := e.(type) {
+		case *ast.UnaryExpr:
+			if x.Op != token.ARROW {
+				return e
+			}
+			name := "Recv"
+			switch p := parent.(type) {
+			case *ast.AssignStmt:
+				if len(p.Lhs) == 2 && len(p.Rhs) == 1 {
+					name = "Recv2"
+				}
+			case *ast.ValueSpec:
+				if len(p.Names) == 2 && len(p.Values) == 1 {
+					name = "Recv2"
+				}
+			}
+			note(x, "receive")
+			return call(shim(name), x.X)
+		case *ast.CallExpr:
+			id, ok := x.Fun.(*ast.Ident)
+			if !ok || id.Name != "close" || len(x.Args) != 1 {
+				return e
+			}
+			if _, isBuiltin := fc.info.Uses[id].(*types.Builtin); !isBuiltin {
+				return e
+			}
+			note(x, "close")
+			x.Fun = shim("Close")
+		}
+		return e
+	}
+	doStmt := func(st ast.Stmt) ast.Stmt {
+		if skip[st] {
+			return st
+		}
+		switch x := st.(type) {
+		case *ast.SendStmt:
+			note(x, "send")
+			return &ast.ExprStmt{X: method(call(shim("SendTo"), x.Chan), "Do", x.Value)}
+		case *ast.RangeStmt:
+			if !isChan(x.X) {
+				return st
+			}
+			hoist := !simpleExpr(x.X)
+			if hoist && labeled[x] {
+				fc.rep.Uncontrolled = append(fc.rep.Uncontrolled, fc.pos(x)+" labeled range over a channel expression")
+				return st
+			}
+			fc.counter++
+			vn, okn, chn := fmt.Sprintf("zzcv%d", fc.counter), fmt.Sprintf("zzcok%d", fc.counter), fmt.Sprintf("zzch%d", fc.counter)
+			chExpr := x.X
+			if hoist {
+				chExpr = ast.NewIdent(chn)
+			}
+			lhs0 := ast.Expr(ast.NewIdent("_"))
+			hasKey := x.Key != nil
+			if id, ok := x.Key.(*ast.Ident); ok && id.Name == "_" {
+				hasKey = false
+			}
+			if hasKey {
+				lhs0 = ast.NewIdent(vn)
+			}
+			pre := []ast.Stmt{
+				&ast.AssignStmt{Lhs: []ast.Expr{lhs0, ast.NewIdent(okn)}, Tok: token.DEFINE, Rhs: []ast.Expr{call(shim("Recv2"), chExpr)}},
+				&ast.IfStmt{Cond: &ast.UnaryExpr{Op: token.NOT, X: ast.NewIdent(okn)}, Body: &ast.BlockStmt{List: []ast.Stmt{&ast.BranchStmt{Tok: token.BREAK}}}},
+			}
+			if hasKey {
+				pre = append(pre, &ast.AssignStmt{Lhs: []ast.Expr{x.Key}, Tok: x.Tok, Rhs: []ast.Expr{ast.NewIdent(vn)}})
+			}
+			loop := &ast.ForStmt{Body: &ast.BlockStmt{List: append(pre, x.Body.List...)}}
+			note(x, "range")
+			if hoist {
+				return &ast.BlockStmt{List: []ast.Stmt{define(chn, x.X), loop}}
+			}
+			return loop
+		case *ast.SelectStmt:
+			if labeled[x] {
+				fc.rep.Uncontrolled = append(fc.rep.Uncontrolled, fc.pos(x)+" labeled select")
+				return st
+			}
+			fc.counter++
+			sn := fmt.Sprintf("zzsel%d", fc.counter)
+			dflt := "false"
+			for _, cl := range x.Body.List {
+				if cl.(*ast.CommClause).Comm == nil {
+					dflt = "true"
+				}
+			}
+			stmts := []ast.Stmt{define(sn, call(shim("NewSelect"), ast.NewIdent(dflt)))}
+			var clauses []ast.Stmt
+			var defaultClause *ast.CaseClause
+			k := 0
+			for _, cl := range x.Body.List {
+				cc := cl.(*ast.CommClause)
+				if cc.Comm == nil {
+					defaultClause = &ast.CaseClause{Body: cc.Body}
+					continue
+				}
+				cn := fmt.Sprintf("%s_%d", sn, k)
+				var prefix []ast.Stmt
+				switch cm := cc.Comm.(type) {
+				case *ast.SendStmt:
+					stmts = append(stmts, define(cn, method(call(shim("AddSend"), ast.NewIdent(sn), cm.Chan), "Val", cm.Value)), use(cn))
+				case *ast.ExprStmt:
+					u := unparen(cm.X).(*ast.UnaryExpr)
+					stmts = append(stmts, define(cn, call(shim("AddRecv"), ast.NewIdent(sn), u.X)), use(cn))
+				case *ast.AssignStmt:
+					u := unparen(cm.Rhs[0]).(*ast.UnaryExpr)
+					stmts = append(stmts, define(cn, call(shim("AddRecv"), ast.NewIdent(sn), u.X)), use(cn))
+					rhs := []ast.Expr{&ast.SelectorExpr{X: ast.NewIdent(cn), Sel: ast.NewIdent("V")}}
+					if len(cm.Lhs) == 2 {
+						rhs = append(rhs, &ast.SelectorExpr{X: ast.NewIdent(cn), Sel: ast.NewIdent("Ok")})
+					}
+					prefix = append(prefix, &ast.AssignStmt{Lhs: cm.Lhs, Tok: cm.Tok, Rhs: rhs})
+				}
+				clauses = append(clauses, &ast.CaseClause{
+					List: []ast.Expr{&ast.BasicLit{Kind: token.INT, Value: strconv.Itoa(k)}},
+					Body: append(prefix, cc.Body...)})
+				k++
+			}
+			if defaultClause != nil {
+				clauses = append(clauses, defaultClause)
+			} else if len(clauses) > 0 {
+				// Wait never answers -1 here: the last case becomes the switch's default so that a
+				// select that ends a function still counts as a terminating statement
+				clauses[len(clauses)-1].(*ast.CaseClause).List = nil
+			}
+			stmts = append(stmts, &ast.SwitchStmt{Tag: method(ast.NewIdent(sn), "Wait"), Body: &ast.BlockStmt{List: clauses}})
+			note(x, "select")
+			fc.need["vchan"] = true
+			fc.changed = true
+			return &ast.BlockStmt{List: stmts}
+		}
+		return st
+	}
+	exprT := reflect.TypeOf((*ast.Expr)(nil)).Elem()
+	stmtT := reflect.TypeOf((*ast.Stmt)(nil)).Elem()
+	exprsT := reflect.TypeOf([]ast.Expr(nil))
+	stmtsT := reflect.TypeOf([]ast.Stmt(nil))
+	// pre-order: the fields of a node are replaced before ast.Inspect descends into them, so what a
+	// replacement is built from (clause bodies, operands) is visited - and rewritten - afterwards
+	ast.Inspect(fc.file, func(n ast.Node) bool {
+		if n == nil {
+			return true
+		}
+		if cc, ok := n.(*ast.CommClause); ok && cc.Comm != nil {
+			_ = cc // a comm clause still here belongs to a labeled select: its comm is in skip
+		}
+		v := reflect.ValueOf(n)
+		if v.Kind() != reflect.Ptr || v.IsNil() || v.Elem().Kind() != reflect.Struct {
+			return true
+		}
+		v = v.Elem()
+		for i := 0; i < v.NumField(); i++ {
+			f := v.Field(i)
+			if !f.CanSet() {
+				continue
+			}
+			switch f.Type() {
+			case exprT:
+				if e, ok := f.Interface().(ast.Expr); ok && e != nil {
+					if r := doExpr(n, e); r != e {
+						f.Set(reflect.ValueOf(r))
+					}
+				}
+			case stmtT:
+				if s, ok := f.Interface().(ast.Stmt); ok && s != nil {
+					if r := doStmt(s); r != s {
+						f.Set(reflect.ValueOf(r))
+					}
+				}
+			case exprsT:
+				l := f.Interface().([]ast.Expr)
+				for j, e := range l {
+					if e != nil {
+						l[j] = doExpr(n, e)
+					}
+				}
+			case stmtsT:
+				l := f.Interface().([]ast.Stmt)
+				for j, s := range l {
+					if s != nil {
+						l[j] = doStmt(s)
+					}
+				}
+			}
 		}
 		return true
 	})
